@@ -52,7 +52,7 @@ static void add(std::vector<std::string>& v, const char* p) {
 // ---------------------------------------------------------------------------------------------
 // attribution ladder (DESIGN.md section 6)
 static void attribute(const Desc& d, const Facts& f, const Plan& plan, const World& real, const World& model,
-                      Outcome& o) {
+                      Outcome& o, bool hist_via_serialize = false) {
     const auto& T = real.env.trace;
     const auto& X = model.env.trace;
     size_t i = o.dv.index;
@@ -188,6 +188,7 @@ static void attribute(const Desc& d, const Facts& f, const Plan& plan, const Wor
     }
     // non-behaviour records
     uint8_t k = O ? ko : ke;
+    if (ko != ke && (ko == K_HIST || ke == K_HIST)) k = K_HIST;   // a HIST record on one side only
     o.level = "D";
     switch (k) {
         case K_RET: o.level = "B"; add(P, "C06"); add(P, "C01"); if (f.defer) add(P, "C05"); if (f.blocking) add(P, "C11");
@@ -197,7 +198,11 @@ static void attribute(const Desc& d, const Facts& f, const Plan& plan, const Wor
         case K_Q: add(P, "C04"); if (f.defer) add(P, "C05"); if (f.blocking) add(P, "C11"); add(P, "C20");
             o.detail = "pending queue sizes differ"; break;
         case K_BUSY: add(P, "C12"); add(P, "C04"); o.detail = "event-processing flag at quiescence differs"; break;
-        case K_HIST: add(P, "C08"); o.detail = "history memory differs"; break;
+        case K_HIST: add(P, "C08");
+            // back / back11: the probe reads the history through the public serialize(), so the difference is
+            // also a statement about what an archive of this machine contains
+            if (hist_via_serialize && d.serializable) add(P, "C16");
+            o.detail = "history memory differs"; break;
         case K_FLAG: add(P, "C17"); if (f.blocking) add(P, "C11"); o.detail = "flag query answer differs"; break;
         case K_VIS: case K_ACT: add(P, "C03"); if (f.nested) add(P, "C07"); o.detail = "introspection answer differs"; break;
         case K_DATA: add(P, "C16"); add(P, "C15"); o.detail = "state data differs"; break;
@@ -403,7 +408,14 @@ static void collect_stats(const Desc& d, const Plan& plan, const World& real, Ru
     st.trace_hashes[th] |= mask;
 }
 
-Outcome evaluate(const Desc& d, const Variant& v, const Profile& pf, const Plan& plan, RunStats* st) {
+// the description with the state ids as the back-end of this variant numbers them (one spec per process)
+static const Desc& view_of(const Desc& d, int dialect) {
+    static Desc back_view = dialect_view(d, 0);
+    return dialect == 0 ? back_view : d;
+}
+
+Outcome evaluate(const Desc& d0, const Variant& v, const Profile& pf, const Plan& plan, RunStats* st) {
+    const Desc& d = view_of(d0, v.dialect);
     static Facts facts = facts_of(d);
     Outcome o;
     o.plan = plan;
@@ -422,7 +434,7 @@ Outcome evaluate(const Desc& d, const Variant& v, const Profile& pf, const Plan&
     bool inv_ok = check_invariants(d, plan, real, inv);
     if (o.dv.diverged) {
         o.verdict = V_DIVERGED;
-        attribute(d, facts, plan, real, model, o);
+        attribute(d, facts, plan, real, model, o, v.dialect == 0);
         // an invariant broken strictly before the lockstep divergence takes precedence
         if (!inv_ok && inv.dv.index < o.dv.index) o = inv;
     } else if (!inv_ok) {
@@ -525,12 +537,33 @@ Outcome shrink(const Desc& d, const Variant& v, const Profile& pf, const Plan& p
 
 // ---------------------------------------------------------------------------------------------
 // differential oracle
-static std::vector<Rec> normalise(const Desc& d, const std::vector<Rec>& t, const std::string& mode) {
+static std::vector<Rec> normalise(const Desc& d, const std::vector<Rec>& t, const std::string& mode, int dialect) {
     std::vector<Rec> out;
     out.reserve(t.size());
+    const bool renumber = dialect == 0 && ids_differ(d);
+    // back / back11 ids -> the numbering of backmp11, so that the comparison goes on past finding KF-3
+    auto canon = [&](int mach, int id) -> int {
+        if (mach < 0 || mach >= (int)d.machines.size()) return id;
+        const auto& sb = d.machines[mach].states_back;
+        if (id < 0 || id >= (int)sb.size()) return id;
+        return d.states[sb[id]].lib_id;
+    };
     for (const Rec& r0 : t) {
         Rec r = r0;
         r.aux = 0;
+        if (renumber) {
+            if (r.kind <= K_EC && r.obs != 0xffffffffu && r.mach >= 0) {
+                uint32_t o = 0;
+                for (int b = 0; b < 4; ++b) {
+                    uint32_t x = (r.obs >> (8 * b)) & 0xff;
+                    if (x != 0xff && b < (int)d.machines[r.mach].regions.size()) x = (uint32_t)canon(r.mach, (int)x) & 0xff;
+                    o |= x << (8 * b);
+                }
+                r.obs = o;
+            }
+            if (r.kind == K_NT) r.val = canon(r.site, r.val);
+            if (r.kind == K_SNAP || r.kind == K_HIST) r.val = (r.val & ~0xffff) | (canon(r.site, r.val & 0xffff) & 0xffff);
+        }
         if (mode == "backend" || mode == "frontend") {
             // back re-tries completion rows after every handled event, backmp11 only on entry: a false
             // re-evaluation is not an observable difference (C13 quantifier: guards fixed per entry)
@@ -556,7 +589,7 @@ Outcome evaluate_diff(const Desc& d, const std::vector<const Variant*>& vs, cons
     std::vector<std::vector<Rec>> traces;
     std::vector<std::vector<size_t>> opidx;
     for (size_t k = 0; k < vs.size(); ++k) {
-        World w(d, [&](int) { return vs[k]->make(); }, false);
+        World w(view_of(d, vs[k]->dialect), [&](int) { return vs[k]->make(); }, false);
         w.observe_each = pf.observe_each;
         w.run(plan);
         if (k == 0) {
@@ -566,7 +599,7 @@ Outcome evaluate_diff(const Desc& d, const std::vector<const Variant*>& vs, cons
             if (!check_invariants(d, plan, w, inv)) { /* reported by the lockstep checks */ }
         }
         if (w.aborted) { Rec r; r.kind = K_ESC; r.val = 1; w.env.trace.push_back(r); }
-        traces.push_back(normalise(d, w.env.trace, mode));
+        traces.push_back(normalise(d, w.env.trace, mode, vs[k]->dialect));
     }
     for (size_t k = 1; k < vs.size(); ++k) {
         const auto& a = traces[0];
